@@ -352,7 +352,7 @@ class Check:
         for it in self.kf.items:
             if it["seen"] == 0 and it["match"].get("_always"):
                 self.notes.append("finding %s not observed in this run" % it["id"])
-        replay_dir = VERIF / "replays" / self.prop
+        replay_dir = Path(os.environ.get("VERIF_REPLAY_DIR") or (VERIF / "replays")) / self.prop
         if self.violations:
             replay_dir.mkdir(parents=True, exist_ok=True)
             v = self.violations[0]
@@ -380,8 +380,9 @@ class Check:
             "wall_s": round(wall, 2),
             "violations": len(self.violations) + (1 if (self.broken and not self.violations) else 0),
         }
-        (VERIF / "evidence").mkdir(exist_ok=True)
-        (VERIF / "evidence" / ("%s.json" % self.prop)).write_text(json.dumps(ev, indent=1, ensure_ascii=True, default=repr) + "\n")
+        evdir = Path(os.environ.get("VERIF_EVIDENCE_DIR") or (VERIF / "evidence"))  # seeded-change runs keep the committed evidence untouched
+        evdir.mkdir(parents=True, exist_ok=True)
+        (evdir / ("%s.json" % self.prop)).write_text(json.dumps(ev, indent=1, ensure_ascii=True, default=repr) + "\n")
         try:
             if getattr(self, "_driver_copy", None) is not None:
                 self._driver_copy.unlink()
